@@ -941,8 +941,8 @@ pub fn gen_query(rng: &mut Rng, table: &str, t: &MTable, cols: &QCols, kind: QKi
             let na = 1 + rng.below(3);
             for _ in 0..na {
                 let f = if kind == QKind::SumOverflow { AggFn::Sum } else { *rng.pick(&[AggFn::Count, AggFn::Sum, AggFn::Min, AggFn::Max]) };
-                // (mild: integer columns, nullable ones included; float aggregates trip open findings)
-                let apool = if spicy { cols.clone_cols() } else { QCols { ints: cols.ints.clone(), floats: vec![], strs: vec![] } };
+                // (mild: integer and float columns, nullable ones included; the float values are dyadic, so sums are exact)
+                let apool = if spicy { cols.clone_cols() } else { QCols { ints: cols.ints.clone(), floats: cols.floats.clone(), strs: vec![] } };
                 let numeric: Vec<&String> = apool.ints.iter().chain(apool.floats.iter()).collect();
                 let arg = if f == AggFn::Count && rng.below(2) == 0 {
                     Expr::I(1)
@@ -1294,7 +1294,6 @@ pub fn dominant_feature(features: &str) -> &'static str {
         "order_nullable",
         "str_order",
         "group_float",
-        "agg_float",
         "groupN",
         "cross_type_const",
         "nullable_cmp",
